@@ -448,10 +448,66 @@ impl Prop for C19 {
         }
         let nc = rng.range(0, 3);
         let cs: Vec<Vec<Pat>> = (0..nc).map(|_| gen_constraint(rng, ne, stats)).collect();
-        let goal = gen_goal(rng, ne, stats);
+        let mut goal = gen_goal(rng, ne, stats);
+        let mut cs = cs;
+        if rng.chance(1, 4) {
+            // one fact in conflict with several mutually compatible facts: the maximal repairs have different sizes
+            stats.hit("hub_conflict");
+            let hub = rng.below(ne) as u32;
+            match rng.below(2) {
+                0 => {
+                    // x is of class A  vs  x p y (any y)
+                    let a = *rng.pick(&CLASSES);
+                    let pr = *rng.pick(&PREDS[1..]);
+                    facts.push((hub, TYPE, a));
+                    for y in 0..rng.range(2, 3) {
+                        facts.push((hub, pr, y as u32));
+                    }
+                    cs.push(vec![(var("x"), cst(TYPE), cst(a)), (var("x"), cst(pr), var("y"))]);
+                }
+                _ => {
+                    // class A is disjoint from B and from C
+                    facts.push((hub, TYPE, CLASSES[0]));
+                    facts.push((hub, TYPE, CLASSES[1]));
+                    facts.push((hub, TYPE, CLASSES[2]));
+                    cs.push(vec![(var("x"), cst(TYPE), cst(CLASSES[0])), (var("x"), cst(TYPE), cst(CLASSES[1]))]);
+                    cs.push(vec![(var("x"), cst(TYPE), cst(CLASSES[0])), (var("x"), cst(TYPE), cst(CLASSES[2]))]);
+                }
+            }
+            facts.sort();
+            facts.dedup();
+            rng.shuffle(&mut facts);
+        }
+        let mut rules_pre: Vec<(Vec<Pat>, Vec<Pat>)> = Vec::new();
+        let k = rng.below(10);
+        if k >= 8 {
+            let nr = rng.range(1, 3);
+            rules_pre = (0..nr).map(|_| gen_rule(rng, stats)).collect();
+        }
+        if rng.chance(2, 3) {
+            // the identifiers carry no meaning: any renaming (any dictionary encoding order) must give the same answers,
+            // although it changes every internal sort and hash order
+            stats.hit("ids_permuted");
+            let mut perm: Vec<u32> = (0..24).collect();
+            rng.shuffle(&mut perm);
+            let pt = |t: &Term| match t {
+                Term::Constant(c) if (*c as usize) < perm.len() => Term::Constant(perm[*c as usize]),
+                other => other.clone(),
+            };
+            let pp = |p: &Pat| (pt(&p.0), pt(&p.1), pt(&p.2));
+            for f in facts.iter_mut() {
+                *f = (perm[f.0 as usize], perm[f.1 as usize], perm[f.2 as usize]);
+            }
+            for c in cs.iter_mut() {
+                *c = c.iter().map(pp).collect();
+            }
+            for r in rules_pre.iter_mut() {
+                *r = (r.0.iter().map(pp).collect(), r.1.iter().map(pp).collect());
+            }
+            goal = pp(&goal);
+        }
         stats.hit(&format!("facts_{}", facts.len()));
         stats.hit(&format!("constraints_{}", cs.len()));
-        let k = rng.below(10);
         if k < 5 {
             stats.hit("mode_query");
             line("q", &facts, &cs, &[], &goal)
@@ -465,9 +521,7 @@ impl Prop for C19 {
             }
         } else {
             stats.hit("mode_infer");
-            let nr = rng.range(1, 3);
-            let rules: Vec<_> = (0..nr).map(|_| gen_rule(rng, stats)).collect();
-            line("i", &facts, &cs, &rules, &goal)
+            line("i", &facts, &cs, &rules_pre, &goal)
         }
     }
 
